@@ -64,8 +64,19 @@ def overlay_for(root: str, v: dict) -> Optional[Dict[str, str]]:
     return ov
 
 
+def _baseline(root: str, rules) -> frozenset:
+    """keys of the violations the rules report on the tree itself (open known findings, or a defect under
+    test): a variant is judged on what it ADDS to them"""
+    from ..runner import run_rules, RULES as _R
+    try:
+        return frozenset(o.key() for o in run_rules(Repo(root), [r for r in rules if r in _R]) if not o.ok)
+    except AnalysisError:
+        return frozenset()
+
+
 def run_variant(args):
-    root, v, kind = args
+    root, v, kind = args[:3]
+    base = args[3] if len(args) > 3 else frozenset()
     from .. import props  # noqa: F401  (registers rules)
     from ..runner import run_rules
     from ..runner import RULES as _R
@@ -98,7 +109,7 @@ def run_variant(args):
         signal.alarm(0)
     except ValueError:
         pass
-    bad = [o for o in obs if not o.ok]
+    bad = [o for o in obs if not o.ok and o.key() not in base]
     if kind == "M":
         if any(o.rule in v["rules"] for o in bad):
             o = bad[0]
@@ -119,7 +130,8 @@ def run_equiv(args):
     import shutil
     import subprocess
     import tempfile
-    root, patch, rules = args
+    root, patch, rules = args[:3]
+    base = args[3] if len(args) > 3 else frozenset()
     from .. import props  # noqa: F401
     from ..runner import run_rules, RULES as _R
     name = "equiv/" + os.path.basename(patch)
@@ -133,7 +145,7 @@ def run_equiv(args):
             obs = run_rules(Repo(d), [x for x in rules if x in _R])
         except AnalysisError as e:
             return (name, "Q", "fail", f"ANALYSIS-ERROR on a behaviour-preserving refactoring: {str(e)[:200]}")
-        bad = [o for o in obs if not o.ok]
+        bad = [o for o in obs if not o.ok and o.key() not in base]
         if bad:
             o = bad[0]
             return (name, "Q", "fail", f"false alarm {o.rule} {o.file}:{o.line} {o.construct[:60]} -> {o.fact[:120]}")
@@ -156,9 +168,12 @@ def seeded_patches(pid: Optional[str] = None) -> List[tuple]:
         pf, mf = os.path.join(SEEDED_DIR, d, "patch.diff"), os.path.join(SEEDED_DIR, d, "meta.json")
         if os.path.isfile(pf) and os.path.isfile(mf):
             try:
-                prop = json.load(open(mf)).get("property")
+                meta = json.load(open(mf))
+                prop = meta.get("property")
             except Exception:
                 continue
+            if meta.get("obsolete_since"):
+                continue     # the mechanism it needed was removed by a later fix: see meta.json
             if prop and (pid is None or prop == pid):
                 out.append((pf, prop))
     return out
@@ -170,7 +185,8 @@ def run_seeded(args):
     import shutil
     import subprocess
     import tempfile
-    root, patch, rules = args
+    root, patch, rules = args[:3]
+    base = args[3] if len(args) > 3 else frozenset()
     from .. import props  # noqa: F401
     from ..runner import run_rules, RULES as _R
     name = "seeded/" + os.path.basename(os.path.dirname(patch))
@@ -184,7 +200,7 @@ def run_seeded(args):
             obs = run_rules(Repo(d), [x for x in rules if x in _R])
         except AnalysisError as e:
             return (name, "M", "ok", f"ANALYSIS-ERROR {str(e)[:100]}")
-        bad = [o for o in obs if not o.ok]
+        bad = [o for o in obs if not o.ok and o.key() not in base]
         if bad:
             o = bad[0]
             return (name, "M", "ok", f"{o.rule} {o.file}:{o.line} {o.construct[:60]}")
@@ -215,10 +231,11 @@ def run_for_property(pid: str, spec: dict, root: str, tier: str) -> dict:
     # listed on a mutant may or may not fire and are only credited when they do
     ms = [m for m in ms if m["rules"][0] in spec["rules"]]
     # restrict each variant to the rules of this property
-    jobs = [(root, {**m, "rules": [r for r in m["rules"] if r in spec["rules"]]}, "M") for m in ms] + \
-           [(root, {**q, "rules": [r for r in q["rules"] if r in spec["rules"]]}, "Q") for q in qs]
-    eq = [(root, p, spec["rules"]) for p in equiv_patches()] if tier == "thorough" else []
-    sd = [(root, p, spec["rules"]) for p, _ in seeded_patches(pid)] if tier == "thorough" else []
+    base = _baseline(root, spec["rules"])
+    jobs = [(root, {**m, "rules": [r for r in m["rules"] if r in spec["rules"]]}, "M", base) for m in ms] + \
+           [(root, {**q, "rules": [r for r in q["rules"] if r in spec["rules"]]}, "Q", base) for q in qs]
+    eq = [(root, p, spec["rules"], base) for p in equiv_patches()] if tier == "thorough" else []
+    sd = [(root, p, spec["rules"], base) for p, _ in seeded_patches(pid)] if tier == "thorough" else []
     if tier == "thorough" and len(jobs) + len(eq) + len(sd) > 8:
         with ProcessPoolExecutor(max_workers=min(16, len(jobs) + len(eq) + len(sd))) as ex:
             res = list(ex.map(run_variant, jobs)) + list(ex.map(run_equiv, eq)) + list(ex.map(run_seeded, sd))
@@ -246,11 +263,12 @@ def run_for_property(pid: str, spec: dict, root: str, tier: str) -> dict:
 
 def run_all(root: str, rules: List[str], jobs: int, verbose: bool) -> int:
     ms, qs = _select(rules, False)
-    work = [(root, m, "M") for m in ms] + [(root, q, "Q") for q in qs]
     from ..runner import RULES as _R
-    eq = [(root, p, rules or sorted(_R)) for p in equiv_patches()]
+    base = _baseline(root, rules or sorted(_R))
+    work = [(root, m, "M", base) for m in ms] + [(root, q, "Q", base) for q in qs]
+    eq = [(root, p, rules or sorted(_R), base) for p in equiv_patches()]
     from .. import props as _props
-    sd = [] if rules else [(root, p, _props.PROPS[prop]["rules"]) for p, prop in seeded_patches() if prop in _props.PROPS]
+    sd = [] if rules else [(root, p, _props.PROPS[prop]["rules"], base) for p, prop in seeded_patches() if prop in _props.PROPS]
     if jobs > 1 and len(work) > 4:
         with ProcessPoolExecutor(max_workers=jobs) as ex:
             res = list(ex.map(run_variant, work)) + list(ex.map(run_equiv, eq)) + list(ex.map(run_seeded, sd))
